@@ -18,3 +18,9 @@ func (cc *Conn) VerifSizes() map[string]int {
 	out["limiter_entries"] = len(cc.LimitParallelRequests.VerifQueues())
 	return out
 }
+
+// VerifPeerBlockwise reports whether a CSM of the peer announcing the Block-Wise-Transfer capability
+// has been processed (verification harness only: a scripted peer's CSM is in effect from then on).
+func (cc *Conn) VerifPeerBlockwise() bool {
+	return cc.peerBlockWiseTranferEnabled.Load()
+}
